@@ -287,6 +287,11 @@ def main(pid, tier, seed):
                     meta[tid] = {'kind': 'float ruleset via CrackingSession.run + .sav file, flags from the save file', 'ruleset': desc,
                                  'flags': flags, 'cuts': cuts, 'error': 'resumed session emitted a pre-terminal unknown under the flags: %r' % (ex,)}
 
+        # anti-vacuity: the session-level histories must really have been interrupted and resumed
+        n_multi = sum(1 for t_ in ptraces if len(t_['sess']) >= 2 and meta[t_['tid']].get('kind', '').find('CrackingSession') >= 0)
+        if n_session_hist and not n_multi:
+            raise core.MachineryError('C08: no session-level history was interrupted (the quit script no longer reaches the loop)')
+
     # ---- shipped ruleset prefix (order / reported probability only; node space not tabulated) ----
     extra_prefix = 0
     if pid == 'C01':
@@ -379,7 +384,7 @@ def main(pid, tier, seed):
                 'non-trivial = more than one emission; distinct by emitted node/rank sequence',
         'int_grammars_from_spec': n_int, 'float_rulesets': n_float,
         'shipped_ruleset_prefix_pops': extra_prefix,
-        'determinism_pairs': len(det_jobs), 'session_level_histories': n_session_hist, 'uuid_refusal': uuid_result,
+        'determinism_pairs': len(det_jobs), 'session_level_histories': n_session_hist, 'session_level_histories_with_resume': (n_multi if pid == 'C08' else 0), 'uuid_refusal': uuid_result,
         'trace_validation': st,
         'impl_conformance': {'traces': len(itraces), 'states': ist.get('states', 0),
                              'result': 'drift' if drift else 'conforms', 'drift_examples': drift[:3]},
